@@ -31,6 +31,10 @@ def csrInfo (p : CertParams) (subject : PubKey) (attrs : List Attribute) : Asn1 
   .seq [ .intOfNat 0, writeDistinguishedName p.dn, spkiNode subject,
          Asn1.implicit 0 (.setOf (csrAttributes p attrs)) ]
 
+/-- the checks after the `UnsupportedInCsr` test, in order -/
+def csrInvalid (p : CertParams) (attrs : List Attribute) : Option Err :=
+  firstErr ([checkName p.dn, checkExtensionOids p] ++ attrs.map (fun a => checkOid a.oid))
+
 def csrExtRequestPanics (p : CertParams) : Bool :=
   p.sans.any sanPanics || p.ekus.any (fun e => !oidOk e.oid) ||
   p.customExts.any (fun e => !oidOk e.oid)
